@@ -449,6 +449,12 @@ class Ev:
 
 	# ---------------------------------------------------------------- main dispatch
 	def eval(self, n: ast.expr) -> Val:
+		c = self.fn.contract
+		if c is not None and c.rewrites and self.mode == 'code' and isinstance(n, (ast.Subscript, ast.Attribute, ast.Compare, ast.BoolOp)):
+			txt = ast.unparse(n)
+			if txt in c.rewrites:
+				self.eng.used_rewrites.add(f'{self.fn.label}: {txt}  ~>  {c.rewrites[txt]}')
+				return self.eval(ast.parse(c.rewrites[txt], mode='eval').body)
 		m = getattr(self, 'e_' + type(n).__name__, None)
 		if m is None:
 			raise EngineError(f'unsupported expression {type(n).__name__}: {ast.unparse(n)[:80]} in {self.fn.label}')
@@ -588,6 +594,10 @@ class Ev:
 			# property or method of the record's class
 			rec = REG.records.get(base.ty.rname)
 			if rec and rec.source:
+				try:
+					return self.class_attr(ClassRef(None, cname=rec.source[1], module=rec.source[0]), attr) if f'{rec.source[1]}.{attr}' not in source.load(rec.source[0]).funcs else (_ for _ in ()).throw(EngineError('method'))
+				except EngineError:
+					pass
 				f = None
 				private = attr.startswith('__') and not attr.endswith('__')
 				if private and self.fn.cname and self.fn.src is not None:
@@ -807,7 +817,27 @@ class Ev:
 			self.guards[:] = saved
 		return Val(BOOL, parts[0] if len(parts) == 1 else z3.And(*parts))
 
+	def user_eq(self, a: Val, b: Val) -> Any | None:
+		"""`==` on instances of a repo class that defines __eq__ (code mode only): dispatch to that method."""
+		if self.mode != 'code':
+			return None
+		t = a.ty.inner if isinstance(a.ty, TOpt) else a.ty
+		if not isinstance(t, TRec):
+			return None
+		rec = REG.records.get(t.rname)
+		if not rec or not rec.source:
+			return None
+		f = source.find_method(rec.source[0], rec.source[1], '__eq__')
+		if f is None:
+			return None
+		r = self.call_function(f, [self.unwrap(a), self.unwrap(b)], {}, recv=self.unwrap(a), recv_name=None, node=None)
+		return self.truthy(r)
+
 	def compare(self, a: Val, op: ast.cmpop, b: Val) -> Any:
+		if isinstance(op, (ast.Eq, ast.NotEq)):
+			u = self.user_eq(a, b)
+			if u is not None:
+				return u if isinstance(op, ast.Eq) else z3.Not(u)
 		if isinstance(op, ast.Eq):
 			return self.eq(a, b)
 		if isinstance(op, ast.NotEq):
